@@ -519,7 +519,13 @@ impl Module {
                 wasmparser::Name::Local(l) => {
                     for f in l {
                         let f = f?;
-                        let func_id = indices.get_func(f.index)?;
+                        let func_id = match indices.get_func(f.index) {
+                            Ok(id) => id,
+                            Err(e) => {
+                                warn!("in name section: {}", e);
+                                continue;
+                            }
+                        };
                         for name in f.names {
                             let naming = name?;
                             // Looks like tools like `wat2wasm` generate empty
